@@ -195,24 +195,22 @@ def r3_rows_and_time_axis(ctx, rid):
 
 
 def r4_cutoff(ctx, rid):
+    """Roles, found on CircuitTemplate.run with its private helpers spliced in and local aliases inlined:
+    FRAME = the DataFrame(...) whose rows are returned; AXIS = its `index=`; cutoff may only appear as the lower bound of a row-label
+    slice `FRAME.loc[cutoff:]`; AXIS must be the solver's 'time' entry (or the regular grid it was interpolated to)."""
+    from engine.inline import inlined
     rel = "pyrates/frontend/template/circuit.py"
-    f = ctx.repo.get_func(rel, "CircuitTemplate.run")
-    if "cutoff" not in f.params:
+    f0 = ctx.repo.get_func(rel, "CircuitTemplate.run")
+    if "cutoff" not in f0.params:
         raise AnalysisError(f"{rid}: parameter cutoff vanished")
+    f = inlined(ctx, f0)
     uses = [n for n in walk_shallow(f.node) if isinstance(n, ast.Name) and n.id == "cutoff" and isinstance(n.ctx, ast.Load)]
     stores = [n for n in walk_shallow(f.node) if isinstance(n, ast.Name) and n.id == "cutoff" and isinstance(n.ctx, ast.Store)]
     if stores:
         ctx.violation(rid, f, stmt_of(ctx.cfg(f), stores[0]), "cutoff is re-bound before it is applied")
     if not uses:
         ctx.violation(rid, f, f.node, "cutoff is never applied: rows with time < cutoff are returned", label="cutoff unused")
-    frame_names = set()
-    for n in walk_shallow(f.node):
-        if isinstance(n, ast.Assign) and isinstance(n.value, ast.Call) and call_name(n.value) == "DataFrame":
-            kw = {k.arg: k.value for k in n.value.keywords}
-            idx = kw.get("index")
-            for t in n.targets:
-                if isinstance(t, ast.Name):
-                    frame_names.add((t.id, ast.unparse(idx) if idx is not None else None))
+    axes = []
     for u in uses:
         st = stmt_of(ctx.cfg(f), u)
         p = getattr(u, "_parent", None)
@@ -226,9 +224,14 @@ def r4_cutoff(ctx, rid):
             else:
                 first = True
             if isinstance(sub, ast.Subscript) and isinstance(sub.value, ast.Attribute) and sub.value.attr == "loc" and first:
-                base = sub.value.value
-                if isinstance(base, ast.Name) and any(nm == base.id and idx == "time_vec" for nm, idx in frame_names):
-                    good = True
+                frame = normalise(ctx, f, sub.value.value)
+                if isinstance(frame, ast.Call) and call_name(frame) == "DataFrame":
+                    idx = next((k.value for k in frame.keywords if k.arg == "index"), frame.args[1] if len(frame.args) > 1 else None)
+                    if idx is None:
+                        why = "the sliced DataFrame has no explicit index (row labels would be 0..n-1, not times)"
+                    else:
+                        good = True
+                        axes.append((st, idx))
                 else:
                     why = "the sliced object is not the DataFrame indexed by the time vector"
             else:
@@ -236,26 +239,70 @@ def r4_cutoff(ctx, rid):
         else:
             why = "cutoff is used outside a `cutoff:` slice"
         if good:
-            ctx.ok(rid, f, st, "cutoff only selects rows by time label (>= cutoff) on the frame indexed by the time vector")
+            ctx.ok(rid, f0, st, "cutoff only selects rows by time label (>= cutoff) on the result frame", label="cutoff is a row-label lower bound")
         else:
-            ctx.violation(rid, f, st, f"cutoff misuse: {why}")
-    # time_vec: comes from outputs.pop('time')
-    tv = [n for n in walk_shallow(f.node) if isinstance(n, ast.Assign) and any(isinstance(t, ast.Name) and t.id == "time_vec" for t in n.targets)]
-    src_ok = any(isinstance(n.value, ast.Call) and call_name(n.value) == "pop" and n.value.args and isinstance(n.value.args[0], ast.Constant)
-                 and n.value.args[0].value == "time" for n in tv)
-    if not src_ok:
-        raise AnalysisError(f"{rid}: time_vec is no longer taken from the solver's 'time' entry")
+            ctx.violation(rid, f0, st, f"cutoff misuse: {why}", label="cutoff is a row-label lower bound")
+    # AXIS: every alternative is <solver outputs>.pop('time') / ['time'] or a regular grid linspace(0, simulation_time, n)
+    def alternatives(e):
+        if isinstance(e, ast.IfExp):
+            return alternatives(e.body) + alternatives(e.orelse)
+        return [e]
+    for st, idx in axes:
+        bad = []
+        for alt in alternatives(idx):
+            is_time_entry = (isinstance(alt, ast.Call) and call_name(alt) in ("pop", "get") and alt.args and isinstance(alt.args[0], ast.Constant)
+                             and alt.args[0].value == "time") or \
+                            (isinstance(alt, ast.Subscript) and isinstance(alt.slice, ast.Constant) and alt.slice.value == "time")
+            if is_time_entry:
+                src = alt.func.value if isinstance(alt, ast.Call) else alt.value
+                if not (isinstance(src, ast.Call) and call_name(src) == "run" and isinstance(src.func, ast.Attribute)
+                        and isinstance(src.func.value, ast.Attribute) and src.func.value.attr in ("_ir", "compute_graph")):
+                    bad.append(f"'time' is read from `{ast.unparse(src)[:60]}`, not from the result of the compute graph's run()")
+                continue
+            if isinstance(alt, ast.Call) and call_name(alt) == "linspace" and len(alt.args) >= 2 \
+                    and isinstance(alt.args[0], ast.Constant) and float(alt.args[0].value) == 0.0 and ast.unparse(alt.args[1]) == "simulation_time":
+                continue
+            bad.append(f"`{ast.unparse(alt)[:80]}` is neither the solver's 'time' entry nor the regular output grid")
+        if bad:
+            if any("neither" in b for b in bad) and not any(isinstance(a, ast.Call) and call_name(a) in ("pop", "get", "linspace") for a in alternatives(idx)):
+                raise AnalysisError(f"{rid}: the index of the result frame has an unrecognised form: {ast.unparse(idx)[:120]}")
+            ctx.violation(rid, f0, st, "the result frame is not indexed by the time axis of the simulation: " + "; ".join(bad), label="frame indexed by the time axis")
+        else:
+            ctx.ok(rid, f0, st, "the result frame is indexed by the solver's time axis (or the regular grid it was interpolated to)",
+                   {"index": ast.unparse(idx)[:200]}, label="frame indexed by the time axis")
+    if uses and not axes and not any(True for _ in ()):
+        pass
     # ComputeGraph.run stores the backend's time axis under 'time'
     cgrun = ctx.repo.get_func("pyrates/backend/computegraph.py", "ComputeGraph.run")
     ok_time = False
     for n in walk_shallow(cgrun.node):
         if isinstance(n, ast.Assign) and len(n.targets) == 1 and isinstance(n.targets[0], ast.Subscript) \
-                and isinstance(n.targets[0].slice, ast.Constant) and n.targets[0].slice.value == "time" \
-                and isinstance(n.value, ast.Name) and n.value.id == "times":
-            ok_time = True
-            ctx.ok(rid, cgrun, n, "the solver's time axis is returned under key 'time' unchanged", nontrivial=False)
+                and isinstance(n.targets[0].slice, ast.Constant) and n.targets[0].slice.value == "time":
+            v = normalise(ctx, cgrun, n.value)
+            # the axis is the second element of the backend's run() result
+            from_backend = isinstance(v, ast.Subscript) and isinstance(v.value, ast.Call) and call_name(v.value) == "run" \
+                and isinstance(v.slice, ast.Constant) and v.slice.value == 1
+            unpacked = isinstance(n.value, ast.Name) and _unpacked_from_run(cgrun, n.value.id) == 1
+            if from_backend or unpacked:
+                ok_time = True
+                ctx.ok(rid, cgrun, n, "the solver's time axis is returned under key 'time' unchanged", nontrivial=False, label="time key")
+            else:
+                ctx.violation(rid, cgrun, n, f"ComputeGraph.run stores `{ast.unparse(n.value)[:60]}` under 'time', not the time axis returned by the backend",
+                              label="time key")
+                ok_time = True
     if not ok_time:
         ctx.violation(rid, cgrun, cgrun.node, "ComputeGraph.run no longer returns the backend's time axis under 'time'", label="time key")
+
+
+def _unpacked_from_run(f, name):
+    """Position of `name` in a tuple target unpacked from a `<backend>.run(...)` call in f, else None."""
+    for st in walk_shallow(f.node):
+        if isinstance(st, ast.Assign) and len(st.targets) == 1 and isinstance(st.targets[0], ast.Tuple) and isinstance(st.value, ast.Call) \
+                and call_name(st.value) == "run":
+            for i, e in enumerate(st.targets[0].elts):
+                if isinstance(e, ast.Name) and e.id == name:
+                    return i
+    return None
 
 
 def r5_history_fed_with_step_result(ctx, rid):
